@@ -48,7 +48,7 @@ def tyOK : Ty → Bool
   | .array t => tyOK t
   | .map t => tyOK t
   | .custom n => typeNameOK n
-  | .enum vs => !vs.isEmpty && vs.all fieldNameOK
+  | .enum vs => !vs.isEmpty && vs.all (fun v => fieldNameOK v.1 && v.2.all commentOK)
   | .struct fs => fieldsTyOK fs
   | _ => true
 def fieldsTyOK : List (In × Ty × List In) → Bool
